@@ -593,6 +593,15 @@ func (q *qworld) startCommit(ci int, id ch.NodeID, auth replication.Authority) {
 	q.nextOp++
 	op := &opResult{opID: q.nextOp, kind: opCommit, node: id, nodeInc: n.inc, channel: ci, auth: auth, cmd: cmd, invoked: q.r.Steps,
 		exactRetry: exact, conflicting: conflicting}
+	// a (command, content variant) that was submitted before may already be sealed
+	// at an earlier range on some owner (ambiguous outcome): only its very first
+	// submission must start right after the log end observed at invocation
+	vi := 0
+	if conflicting {
+		vi = 1
+	}
+	op.firstAttempt = !cmd.attempted[vi]
+	cmd.attempted[vi] = true
 	op.leoBefore = q.view(n, cs).leo
 	q.busy[okey(id, ci)] = op
 	q.notePoison(cs, op)
@@ -953,7 +962,7 @@ func (q *qworld) onCommitDone(op *opResult) {
 	if quiet && op.exactRetry && cmd.acked && v.err == nil && v.leo != op.leoBefore {
 		q.fail("retry-stored-again", "", fmt.Sprintf("c%d n%d: exact retry of acknowledged command %x moved the leader log end %d -> %d", op.channel, op.node, cmd.id[:3], op.leoBefore, v.leo), nil)
 	}
-	if quiet && !cmd.acked && !op.exactRetry && v.err == nil && rc.First != op.leoBefore+1 {
+	if quiet && !cmd.acked && !op.exactRetry && op.firstAttempt && v.err == nil && rc.First != op.leoBefore+1 {
 		// a new command must start right after the previous log end of its leader
 		q.fail("range-not-contiguous", "", fmt.Sprintf("c%d n%d: new command %x acknowledged at [%d..%d] but the leader log end before the call was %d", op.channel, op.node, cmd.id[:3], rc.First, rc.Last, op.leoBefore), nil)
 	}
